@@ -2,6 +2,7 @@ package props
 
 import (
 	"bytes"
+	"context"
 	"fmt"
 	"sort"
 	"strings"
@@ -703,6 +704,128 @@ func c03RunBindAfterBind(fa, na, fb, nb int) explore.Result {
 	return res
 }
 
+// c03WideBind builds a Bind (portal p, statement s) whose count word number `field` (0 parameter format codes,
+// 1 parameter values, 2 result format codes) declares `count` items and is followed by `items` of them; the words
+// before it declare 0, the message ends behind the items (complete only if items == count and field == 2).
+func c03WideBind(field, count, items int) []byte {
+	body := pgproto.Cat(pgproto.CStr("p"), pgproto.CStr("s"))
+	u16 := func(v int) []byte { return []byte{byte(v >> 8), byte(v)} }
+	for f := 0; f <= 2; f++ {
+		if f < field {
+			body = append(body, 0, 0)
+			continue
+		}
+		if f > field {
+			if items == count {
+				body = append(body, 0, 0)
+			}
+			continue
+		}
+		body = append(body, u16(count)...)
+		for i := 0; i < items; i++ {
+			if f == 1 {
+				body = append(body, 0, 0, 0, 1, 'v')
+			} else {
+				body = append(body, 0, byte(i%2))
+			}
+		}
+	}
+	return pgproto.Msg('B', body)
+}
+
+// c03RunCounts: a Bind whose count word declares 2^15-1 .. 2^16-1 items (none, two or all of them present) is
+// interpreted by itself: whatever becomes of it, the messages behind it are interpreted exactly as they are
+// behind a Bind that fails for a plain reason (an unknown statement).
+func c03RunCounts(field, count, items int) explore.Result {
+	var res explore.Result
+	res.Outcome = "earlier-message"
+	res.Key = fmt.Sprint("counts", field, count, items)
+	mark := "select $1 mark"
+	head := pgproto.Cat(pgproto.Startup("user", "u"), pgproto.Parse("s", "select $1, $2, $3"))
+	tail := pgproto.Cat(pgproto.Execute("p", 0), pgproto.Sync(), pgproto.Query(mark),
+		pgproto.Bind("p", "s", []int16{1}, [][]byte{[]byte("b0"), []byte("b1")}, nil), pgproto.Execute("p", 0), pgproto.Sync())
+	with := c04RunLimit(false, c04Feed{Stream: pgproto.Cat(head, c03WideBind(field, count, items), tail)}, false, 1<<20)
+	without := c04RunLimit(false, c04Feed{Stream: pgproto.Cat(head, pgproto.Bind("p", "nosuch", nil, nil, nil), tail)}, false, 1<<20)
+	if with.engine != "" || without.engine != "" {
+		res.Engine = with.engine + without.engine
+		return res
+	}
+	after := func(ev []string) []string {
+		for i, e := range ev {
+			if strings.Contains(e, mark) {
+				return ev[i:]
+			}
+		}
+		return nil
+	}
+	a, b := after(with.events), after(without.events)
+	// (a Bind that ends before its declared items is malformed: the connection may be given up - then nothing
+	// behind it is interpreted at all)
+	if len(a) > 0 && !sameStrings(a, b) {
+		res.Fail("earlier-message-leaked", fmt.Sprintf("a Bind whose count word %d (0 parameter formats, 1 values, 2 result formats) declares %d items (%d present): the messages behind it were observed as\n  %v\nbut behind a Bind that fails for a plain reason as\n  %v", field, count, items, a, b))
+	}
+	res.Trans = []string{"bind|count word at the 15/16-bit boundary|next messages as always"}
+	return res
+}
+
+// c03RunRetention: what a Bind put into a portal is what the statement receives at Execute, however many bytes of
+// other messages (on this connection, or on other connections that come and go) were read in between.
+func c03RunRetention(fillers, fillerLen, otherConns int) explore.Result {
+	res, kinds := c03Retention(fillers, fillerLen, otherConns)
+	if fillers+otherConns > 0 && len(res.Violations) == 0 && res.Engine == "" {
+		// the names too: Execute finds the portal exactly as it does when nothing was sent in between
+		if _, base := c03Retention(0, 0, 0); base != kinds {
+			res.Fail("earlier-message-leaked", fmt.Sprintf("Parse, Bind, then %d Parse messages of %d bytes on the same connection and %d other connections that came and went, then Execute + Sync: answered %q; with nothing in between it is answered %q", fillers, fillerLen, otherConns, kinds, base))
+		}
+	}
+	return res
+}
+
+func c03Retention(fillers, fillerLen, otherConns int) (explore.Result, string) {
+	var res explore.Result
+	res.Outcome = "earlier-message"
+	res.Key = fmt.Sprint("retention", fillers, fillerLen, otherConns)
+	var got [][]string
+	parse := func(ctx context.Context, q string) (wire.PreparedStatements, error) {
+		return wire.Prepared(wire.NewStatement(func(ctx context.Context, w wire.DataWriter, params []wire.Parameter) error {
+			var vs []string
+			for _, p := range params {
+				vs = append(vs, string(p.Value()))
+			}
+			if len(params) > 0 {
+				got = append(got, vs)
+			}
+			return w.Complete("OK")
+		}, wire.WithParameters(wire.ParseParameters(q)))), nil
+	}
+	srv, err := harness.NewServer(parse)
+	if err != nil {
+		res.Engine = err.Error()
+		return res, ""
+	}
+	defer srv.Stop()
+	a := srv.Connect()
+	a.Step(pgproto.Startup("user", "alice"))
+	want := []string{"precious-value-" + strings.Repeat("A", 40), "second-value"}
+	a.Step(pgproto.Cat(pgproto.Parse("s", "q $1 $2"), pgproto.Bind("p", "s", nil, [][]byte{[]byte(want[0]), []byte(want[1])}, nil)))
+	for i := 0; i < fillers; i++ {
+		a.Step(pgproto.Parse("f", "--filler--"+strings.Repeat("f", fillerLen)))
+	}
+	for i := 0; i < otherConns; i++ {
+		b := srv.Connect()
+		b.Step(pgproto.Startup("user", "bob-the-builder", "database", "OTHER-DATABASE"))
+		b.Step(pgproto.Query("select " + strings.Repeat("b", 90)))
+		b.Step(pgproto.Terminate())
+		b.End()
+	}
+	out, _ := a.Step(pgproto.Cat(pgproto.Execute("p", 0), pgproto.Sync()))
+	if len(got) > 0 && !sameStrings(got[len(got)-1], want) {
+		res.Fail("earlier-message-leaked", fmt.Sprintf("Bind of %q, then %d Parse messages of %d bytes on the same connection and %d other connections that came and went, then Execute (answered %q): the statement received %.100q", want, fillers, fillerLen, otherConns, harness.Kinds(out), got[len(got)-1]))
+	}
+	res.Trans = []string{"bound|later traffic|executed with the bound values"}
+	return res, harness.Kinds(out)
+}
+
 // ---- inside COPY-in --------------------------------------------------------------------------------
 
 // c03RunOversizedInCopy: an oversized message arrives while a statement is copying in; it is consumed in exactly its
@@ -800,6 +923,24 @@ func c03AccDepth(tier string) int {
 }
 
 func c03Enumerate(tier string, emit explore.Emit) {
+	for field := 0; field < 3; field++ {
+		for _, count := range []int{255, 256, 32767, 32768, 40000, 65535} {
+			for _, items := range []int{0, 2, count} {
+				field, count, items := field, count, items
+				emit(explore.Case{Family: "earlier-message", Size: 30,
+					Desc: func() any { return map[string]any{"bind_count_word": field, "declares": count, "items_present": items} },
+					Run:  func() explore.Result { return c03RunCounts(field, count, items) }})
+			}
+		}
+	}
+	for _, r := range [][3]int{{0, 0, 0}, {3, 1500, 0}, {12, 400, 0}, {100, 60, 0}, {40, 200, 0}, {0, 0, 3}, {0, 0, 40}, {2, 2000, 10}, {100, 60, 40}} {
+		r := r
+		emit(explore.Case{Family: "earlier-message", Size: 31,
+			Desc: func() any {
+				return map[string]any{"between_bind_and_execute": fmt.Sprintf("%d Parse messages of %d bytes, %d other connections", r[0], r[1], r[2])}
+			},
+			Run: func() explore.Result { return c03RunRetention(r[0], r[1], r[2]) }})
+	}
 	c03EnumSeg(tier, emit)
 	letters := c03Letters()
 	prefixes := [][]sletter{nil}
